@@ -636,6 +636,11 @@ class Canonicaliser:
             # constants passed to an inlined helper decide its tests; what that uncovers (a lambda applied, a helper call
             # that was an argument) is read once more
             from .astutil import fold_constant_tests, fold_static
+            if self.inlined_into and any(isinstance(x, ast.Call) and isinstance(x.func, (ast.Name, ast.Call))
+                                         and (getattr(x.func, "id", None) in ("setattr", "getattr") or isinstance(x.func, ast.Call))
+                                         for x in ast.walk(fn)):
+                # what inlining a helper with constant arguments leaves: setattr(self, "name", v), partial(f, k=c)(x)
+                fold_static(fn)
             for _round in range(2):
                 if not fold_constant_tests(fn):
                     break
